@@ -43,10 +43,26 @@ def impl_vector_field(case):
         with warnings.catch_warnings():
             warnings.simplefilter("ignore")
             try:
-                c, ops, nts = M.build_pyrates(mdl, style=case.get("style"))
+                via = case.get("via", "python")
+                if via == "yaml":
+                    # the model is defined in a YAML file (case["yaml_text"]) and loaded with from_yaml
+                    from pyrates import CircuitTemplate
+                    from pyrates.frontend.template import clear_cache
+                    clear_cache()
+                    os.makedirs("ymod", exist_ok=True)
+                    open("ymod/model.yaml", "w").write(case["yaml_text"])
+                    c = CircuitTemplate.from_yaml(os.path.join(os.getcwd(), "ymod", "model", case["yaml_root"]))
+                else:
+                    c, ops, nts = M.build_pyrates(mdl, style=case.get("style"))
                 for path, val in mdl.get("post_values", {}).items():       # update_var after construction (C07)
-                    *n, o, v = path.split("/")
                     c.update_var(node_vars={path: float(F(val))})
+                if via == "roundtrip":
+                    from pyrates import CircuitTemplate
+                    from pyrates.frontend.template import clear_cache
+                    os.makedirs("ymod", exist_ok=True)
+                    c.to_yaml(os.path.join(os.getcwd(), "ymod", "dump.yaml"))
+                    clear_cache()
+                    c = CircuitTemplate.from_yaml(os.path.join(os.getcwd(), "ymod", "dump", mdl["circuit"]["name"]))
                 func, args, names, smap = c.get_run_func("vf", step_size=1e-3, vectorize=False, float_precision="float64", verbose=False,
                                                          in_place=case.get("in_place", True), clear=False, backend=case.get("backend", "default"))
             except Exception as e:
